@@ -681,7 +681,13 @@ impl NodeRecordStore {
         // Store the new record to the cache
         self.records_cache.push_back(key.clone(), r.clone());
 
-        self.prune_records_if_needed(key)?;
+        if let Err(err) = self.prune_records_if_needed(key) {
+            // The record was refused, so it must not stay in the read cache: it would be served as
+            // if it were held, and a repeated put of the same content would take the early exit
+            // above and be acknowledged without ever being written.
+            let _ = self.records_cache.remove(key);
+            return Err(err);
+        }
 
         let filename = Self::generate_filename(key);
         let file_path = self.config.storage_dir.join(&filename);
